@@ -559,6 +559,10 @@ def concrete_failure(prop, m):
     if prop in ('C07', 'C08', 'C14') and wrongly_accepted:
         # accepted => authorised / admissible (Props/C07, C08, C14) holds of the model; the implementation accepted
         return True
+    if prop == 'C06' and wrongly_accepted and any(k in op for k in ('sessStart', 'subAllocate')):
+        # an exhausted holder starting a session / a share leaving a holder below its usage or creating quota:
+        # refused by the model (Props/C06 exhausted_rejected, share_never_below_used), accepted by the implementation
+        return True
     if prop == 'C04' and wrongly_accepted and any(k in op for k in ('subCancel', 'sessEnd', 'nodeStatus')):
         # a demotion request the model refuses (not the owner, wrong state): accepted by the implementation, it demotes a
         # record before its deadline without its owner asking (Props/C04 *_never_early lists the only causes)
